@@ -27,6 +27,65 @@ pub fn message(len: usize, pat: u8, mseed: u64) -> Vec<u8> {
         0 => {}
         1 => v.iter_mut().for_each(|b| *b = 0xff),
         2 => v.iter_mut().enumerate().for_each(|(i, b)| *b = i as u8),
+        // structured messages a user really hashes: fixed-size records with a common header,
+        // repeated and alternating blocks, sparse data, data that looks like padding
+        6 | 7 | 8 => {
+            let mut r = Rng::new(mseed);
+            let rec = [32usize, 64, 128, 256][(mseed >> 7) as usize % 4];
+            let mut a = vec![0u8; rec];
+            let mut b = vec![0u8; rec];
+            r.fill(&mut a);
+            r.fill(&mut b);
+            for (n, ch) in v.chunks_mut(rec).enumerate() {
+                let l = ch.len();
+                match pat {
+                    6 => {
+                        // common header (first half), then zeros or noise, then a sequence number
+                        ch.copy_from_slice(&a[..l]);
+                        for (i, x) in ch.iter_mut().enumerate().skip(rec / 2) {
+                            *x = if mseed & 8 == 0 { 0 } else { b[i] ^ (n as u8).wrapping_mul(29) };
+                        }
+                        if l == rec {
+                            ch[rec - 4..].copy_from_slice(&(n as u32).to_le_bytes());
+                        }
+                    }
+                    7 => ch.copy_from_slice(&a[..l]),
+                    _ => ch.copy_from_slice(if n % 2 == 0 { &a[..l] } else { &b[..l] }),
+                }
+            }
+            if pat == 7 && len > 0 {
+                // one bit of one copy differs
+                let bit = r.below(8 * len as u64) as usize;
+                v[bit / 8] ^= 1 << (bit % 8);
+            }
+        }
+        9 => {
+            if len > 0 {
+                let mut r = Rng::new(mseed);
+                let bit = r.below(8 * len as u64) as usize;
+                v[bit / 8] = 1 << (bit % 8);
+            }
+        }
+        10 => {
+            // random data that ends like a padded message: 0x80 / 0x81 / 0x01, zeros, a length
+            let mut r = Rng::new(mseed);
+            r.fill(&mut v);
+            let tail = (1 + r.below(24) as usize).min(len);
+            let start = len - tail;
+            for x in &mut v[start..] {
+                *x = 0;
+            }
+            if tail > 0 {
+                v[start] = *r.pick(&[0x80u8, 0x81, 0x01]);
+                let lb = ((start as u64) * 8).to_be_bytes();
+                let n = lb.len().min(tail - 1);
+                v[len - n..].copy_from_slice(&lb[8 - n..]);
+            }
+        }
+        11 => {
+            Rng::new(mseed).fill(&mut v);
+            v.iter_mut().for_each(|b| *b |= 0x80);
+        }
         _ => Rng::new(mseed).fill(&mut v),
     }
     v
@@ -83,6 +142,10 @@ thread_local! {
     static REUSED: std::cell::RefCell<std::collections::HashMap<String, Box<dyn api::DynHash>>> = std::cell::RefCell::new(std::collections::HashMap::new());
 }
 
+thread_local! {
+    static LONG_BEFORE: std::cell::Cell<u64> = std::cell::Cell::new(0);
+}
+
 pub fn exec(cx: &mut Ctx, c: &Case) {
     let m = message(c.len, c.pat, c.mseed);
     let sigp = format!("{}|{}|{}", cx.prop, c.id.name(), api::profile());
@@ -111,10 +174,12 @@ pub fn exec(cx: &mut Ctx, c: &Case) {
         let mut r = Rng::new(c.mseed ^ 0x5917);
         let bs = c.id.block_size();
         let mut cuts: Vec<usize> = Vec::new();
-        let first = match r.below(4) {
+        let first = match r.below(6) {
             0 => 1,
             1 => bs - 1,
             2 => r.below(bs as u64) as usize,
+            3 => bs * (1 + r.below(3) as usize), // the buffer is exactly full / empty at the cut
+            4 => (bs * (1 + r.below(3) as usize)).saturating_sub(r.below(2) as usize * 2) + r.below(2) as usize,
             _ => r.below(c.len as u64 + 1) as usize,
         };
         cuts.push(first.min(c.len));
@@ -128,9 +193,15 @@ pub fn exec(cx: &mut Ctx, c: &Case) {
             for &k in &cuts {
                 h.update(&m[at..k]);
                 at = k;
-                // continue on a clone taken mid-message (the original is dropped)
+                // continue on a clone taken mid-message (the original is dropped), or on an
+                // instance that was busy with another message and is overwritten by clone_from
                 if c.mseed & 4 != 0 {
                     h = h.box_clone();
+                } else if c.mseed & 8 != 0 {
+                    let mut d = c.id.new();
+                    d.update(&m[..(c.mseed >> 9) as usize % (c.len + 1)]);
+                    d.clone_from_dyn(&*h);
+                    h = d;
                 }
             }
             h.update(&m[at..]);
@@ -158,6 +229,16 @@ pub fn exec(cx: &mut Ctx, c: &Case) {
         REUSED.with(|p| {
             let mut p = p.borrow_mut();
             let h = p.entry(name.clone()).or_insert_with(|| c.id.new());
+            // now and then the previous message of the long-lived instance was a very long one
+            // (length counter fast-forwarded through hook H2 to just below a word boundary,
+            // which the following bytes cross)
+            if c.mseed & 0x70 == 0x10 && !cfg!(miri) {
+                let lc = super::counters::late_counter(&mut Rng::new(c.mseed), &c.id);
+                h.set_counter(lc);
+                h.update(&[0x5au8; 600]);
+                let _ = h.finalize_reset();
+                LONG_BEFORE.with(|n| n.set(n.get() + 1));
+            }
             h.update(&m);
             h.finalize_reset()
         })
@@ -180,6 +261,12 @@ pub fn exec(cx: &mut Ctx, c: &Case) {
             cx.log.panic_violation(&format!("{}|reused-instance", sigp), &p)
         }
     }
+    LONG_BEFORE.with(|n| {
+        if n.get() != 0 {
+            cx.log.event("reused_instance_after_a_very_long_message", n.get());
+            n.set(0);
+        }
+    });
     cx.log.event("digest_bytes_compared", exp.len() as u64);
     cx.log.event("message_bytes", c.len as u64);
 }
@@ -219,10 +306,17 @@ pub fn run(cx: &mut Ctx) {
     // part 1: the systematic sweep of every length 0..=3*bs+8, partitioned over shards
     let mut k: u64 = 0;
     let mut done: u64 = 0;
-    let sweep_pats: &[u8] = if cfg!(miri) { &[3] } else { &[0, 1, 3] };
+    let sweep_pats: &[u8] = if cfg!(miri) { &[3] } else { &[0, 1, 3, 6] };
+    let in_sweep = |id: &HashId| !(id.fam == Fam::Skein && ![1usize, 6, 7, 13, 32, 33, 64, 100, 129, 300].contains(&id.out));
+    // when this shard's part of the sweep is larger than half the budget, take a seeded sample of it
+    // (every state size and variant is sampled; other seeds take other samples) instead of a prefix
+    let total: u64 = menu.iter().filter(|id| in_sweep(id)).map(|id| ((if cfg!(miri) { id.block_size() + 8 } else { 3 * id.block_size() + 8 }) as u64 + 1) * sweep_pats.len() as u64).sum();
+    let mine = total / cx.nshards + 1;
+    let keep_per_1024: u64 = if mine <= cx.budget / 2 { 1024 } else { (cx.budget / 2) * 1024 / mine };
+    cx.log.event("sweep_sampling_per_1024", keep_per_1024);
     'sweep: for id in &menu {
         // Skein: sweep only a sub-menu of N per state size in the systematic part
-        if id.fam == Fam::Skein && ![1usize, 6, 7, 13, 32, 33, 64, 100, 129, 300].contains(&id.out) {
+        if !in_sweep(id) {
             continue;
         }
         let top = if cfg!(miri) { id.block_size() + 8 } else { 3 * id.block_size() + 8 };
@@ -230,6 +324,9 @@ pub fn run(cx: &mut Ctx) {
             for &pat in sweep_pats {
                 k += 1;
                 if k % cx.nshards != cx.shard {
+                    continue;
+                }
+                if keep_per_1024 < 1024 && crate::prng::mix(&[cx.seed, k, 0x5a3e]) % 1024 >= keep_per_1024 {
                     continue;
                 }
                 if done >= cx.budget / 2 {
@@ -260,7 +357,7 @@ pub fn run(cx: &mut Ctx) {
             _ => rng.below(maxrand),
         } as usize;
         let fb = *rng.pick(levels);
-        let c = Case { id, fb, len, pat: rng.below(6) as u8, mseed: rng.u64() };
+        let c = Case { id, fb, len, pat: rng.below(12) as u8, mseed: rng.u64() };
         cx.log.announce(&c.desc());
         cx.log.nontrivial();
         cx.log.class(&len_class(&id, len));
